@@ -82,6 +82,11 @@ def run_case(case):
         infam = fam_in_up.get(sh.owner.get(n), False)
         if infam and n not in up:
             continue  # a view outside L's graph whose family is upstream: judged by C06, not here
+        if n not in up and v.base is not None and any(w is v.base and m in up for m, w in it.env.items()):
+            # the same, decided by MyGrad's own base pointer: whether ravel/reshape of a given tensor is a view depends on its memory
+            # layout, which the NumPy shadow of a composite function (glu, ...) need not reproduce
+            cnt["dep_view_by_layout"] = cnt.get("dep_view_by_layout", 0) + 1
+            continue
         expect = bool(info[n]["nonconst"]) and n in up
         cnt["dep_checked"] = cnt.get("dep_checked", 0) + 1
         if expect and g is None:
